@@ -20,7 +20,8 @@ _PINS = json.load(open(os.path.join(os.path.dirname(os.path.abspath(__file__)), 
 _NAMES = ("guarded_content_confined", "reply_ok_meaning", "range_of_clean_body_clean", "spelling_decodes",
           "ext_lookup_spelling_independent", "allow_ips_never_stored", "guarded_answer_is_404",
           "refused_reply_is_404", "hidden_file_indistinguishable_from_absent", "error_page_line_v0_refuted",
-          "tmpl_names_guarded_file_refuted", "allow_404_template_refuted",
+          "tmpl_names_guarded_file_refuted", "allow_404_template_refuted", "file_cache_transparent",
+          "guarded_content_confined_with_file_cache",
           "private_spelling_v0_refuted", "cache_directive_v0_refuted", "violates_contradicts_confined")
 THEOREMS = [(n, _PINS[n]) for n in _NAMES]
 RULE = ("histories of requests against the real kvarn::handle_cache in process (host = Extensions::empty() or, for a third of the scenarios, "
@@ -357,7 +358,7 @@ def history(rng, spellings, extra_addrs=3, methods=True, twins=None, base=0):
     return ops
 
 
-def mk(rng, files, ops, kind, vary=None, both=True, cache=None, fcache=None, default_ext=None, twins=(), plain_err=True):
+def mk(rng, files, ops, kind, vary=None, both=True, cache=None, fcache=None, default_ext=None, twins=(), plain_err=True, seed=()):
     out = []
     tmpl404 = any(f[1][0][1] == b"errors/404.html" and f[1][1][1].startswith(b"!> tmpl ") for f in files)
     caches = (True, False) if both else (rng.random() < 0.85 if cache is None else cache,)
@@ -367,6 +368,9 @@ def mk(rng, files, ops, kind, vary=None, both=True, cache=None, fcache=None, def
         kind = kind + ("/default-ext" if de and "/default-ext" not in kind else "")
         if vary:
             kw["vary"] = vary
+        if seed:
+            # what the file cache holds before the first request: (path relative to the host directory, content | None = "no such file")
+            kw["fcache_seed"] = [xl(xb(p_), xl() if c_ is None else xl(xb(c_))) for p_, c_ in seed]
         if twins:
             # (refused request, request for a path that does not exist, compare cache-control / last-modified too)
             # 0: compare status and bodies; 1: cache-control / last-modified presence too (nothing but hide / *.private marks the file and
@@ -492,10 +496,33 @@ def generate(rng, tier):
     for i in range(n):
         files, targets, plain_err = fixture(rng)
         guarded_t = [t for t in targets if t[1] != "plain"]
+        # the file cache holds something else than the disk for some files (stale or negative entries): what counts is what the
+        # server HOLDS (theorem file_cache_transparent); such files get no refused-vs-absent twins (their line is not the disk's)
+        seed = []
+        if rng.random() < 0.15:
+            for t in rng.sample(targets, min(len(targets), rng.randrange(1, 4))):
+                rel = t[2]
+                kind_ = rng.choice(["older-guarded", "negative", "older-public"])
+                if kind_ == "older-guarded":
+                    seed.append((b"public/" + rel, content(rng.choice([b"!> hide", b"!> allow-ips 10.0.0.3", None if is_private_name(rel) else b"!> hide &> cache server:full"]),
+                                                           rel, rng, True)))
+                elif kind_ == "negative":
+                    seed.append((b"public/" + rel, None))
+                else:
+                    seed.append((b"public/" + rel, content(None, rel, rng, is_private_name(rel))))
+            if rng.random() < 0.4:
+                seed.append((b"errors/404.html", rng.choice([None, b"<html>PUBLIC:404 as the file cache holds it</html>"])))
+                if seed[-1][1] is None:
+                    seed.append((b"errors/404.html", b"<html>PUBLIC:404 inserted last</html>"))
+        seeded = {p_[len(b"public/"):] for p_, _ in seed if p_.startswith(b"public/")}
         spellings = []
         for _ in range(rng.randrange(2, 5)):
             t = rng.choice(guarded_t if rng.random() < 0.85 else targets)
+            if seed and rng.random() < 0.5:
+                t = rng.choice([x for x in targets if x[2] in seeded] or [t])
             path = t[0]
+            if t[2] in seeded:
+                t = None
             r = rng.random()
             if r < 0.2:
                 spellings.append((path, t))
@@ -510,8 +537,9 @@ def generate(rng, tier):
             vary = [pipe.vary_rule(sp, [(b"x-v", rng.choice([0, 1]), b"-")]) for sp in sorted({s for s, _ in spellings})
                     if rng.random() < 0.7 and b"?" not in sp and b"#" not in sp]
         twins = []
-        ops = history(rng, spellings, twins=twins)
-        cases += mk(rng, files, ops, "random", vary=vary, both=(i % 3 == 0), twins=twins, plain_err=plain_err)
+        ops = history(rng, spellings, twins=twins if not any(p_ == b"errors/404.html" for p_, _ in seed) else None)
+        cases += mk(rng, files, ops, "random" + ("/fcache-seed" if seed else ""), vary=vary, both=(i % 3 == 0), twins=twins, plain_err=plain_err, seed=seed,
+                    fcache=True if seed and rng.random() < 0.8 else None)
     # exhaustive subsets of positions: all 2^k subsets of the last k = min(len, cap) characters of the path
     # (for *.private that is at least the whole ".private" suffix), kinds in rotation
     nex = 3 if tier == "quick" else 36
@@ -558,15 +586,29 @@ MARK = re.compile(rb"SECRET:([^:;]*):")
 
 
 def _scenario(c):
+    """(what the server holds: path -> content, operations, twins)"""
     cfg, ops = c.x[1]
     files = {}
     twins = []
+    seed = []
+    fcache = True
     for e in cfg[1]:
         if e[1][0][1] == b"files":
             for f in e[1][1][1]:
                 files[f[1][0][1]] = f[1][1][1]
         if e[1][0][1] == b"twins":
             twins = [(t[1][0][1], t[1][1][1], t[1][2][1]) for t in e[1][1][1]]
+        if e[1][0][1] == b"fcache_seed":
+            seed = [(t[1][0][1], t[1][1][1][0][1] if t[1][1][1] else None) for t in e[1][1][1]]
+        if e[1][0][1] == b"fcache":
+            fcache = e[1][1][1] == 1
+    if fcache:
+        # an entry of the file cache (also a stale or a negative one) is what the server holds for the path
+        for p_, c_ in seed:
+            if c_ is None:
+                files.pop(p_, None)
+            else:
+                files[p_] = c_
     return files, ops[1], twins
 
 
